@@ -1,4 +1,5 @@
 import Model.C08
+import Model.C08Loop
 /-!
 Oracle handlers for C08 (and the step replay shared with C09).
 
@@ -394,8 +395,210 @@ def handleGlue (f : List String) : String × String × String :=
     ("-", (if bad.isEmpty then "-" else ",".intercalate bad), s!"glue=1 kinds={kinds} windows={if nwin == 0 then "0" else if nwin < 10 then "1-9" else "10+"}")
   | _ => ("bad-fields", "-", "glue=1")
 
+/-! ### loop stream: acceptance of the real services' CAS trace by the loop model (`C08.loopNext`)
+
+`C08.loop <case> <cfgs> <unregister flags> <initial store> <trace>`; trace items `M!i!start`, `M!i!req!cs!A`, `M!i!req!ro!1`,
+`M!i!req!claim!id`, `M!i!stop`, `M!i!term!state/tokens` (the driver's calls) and `C!i!now!gen!in>out` (one CAS callback
+invocation of lifecycler `i`, in commit order). diff = the first CAS (or termination) that NO enabled loop event of
+its writer explains; judge = frame / edges / heartbeat / registration time on the recorded writes. -/
+
+/-- one possible state of the loop model of a lifecycler (the acceptance check is a subset simulation: the time at which
+the loop serves a request that needs no CAS is not visible in the trace, so several model states can be possible) -/
+structure LS where
+  ctl : Ctl := {}
+  l : Local := {}
+  prevL : Local := {}
+  startReq : Bool := false
+  stopReq : Bool := false
+  queue : List Event := []
+  deriving DecidableEq, Inhabited
+
+structure LN where
+  cfg : Cfg
+  unreg : Bool
+  states : List LS := [{}]
+  -- judge bookkeeping (from the markers only)
+  fresh : Bool := false          -- no CAS yet since the last start marker
+  reqStates : List String := []  -- ChangeState targets asked for so far
+  claims : List String := []     -- ClaimTokensFor sources asked for so far
+  stopping : Bool := false
+  presentAtStop : Bool := false
+  deriving Inhabited
+
+structure Tried where
+  out : String
+  gen : String
+  ctl : Ctl
+  l : Local
+
+def mOutOf : CasOut → String
+  | .noCas => "x" | .declined => "nil" | .cbErr => "err" | .write d => "W" ++ showDesc (canon d)
+
+def tryEvent (nd : LN) (st : LS) (store : Option Desc) (ev : LEvent) (now : Int) (reply : List Nat) : Option Tried :=
+  match loopNext nd.unreg nd.cfg st.ctl st.l .absent store ev now (fun _ _ => reply) with
+  | some (.own e _ _ _, ctl') =>
+    let r := step nd.cfg st.l .absent store e now (fun _ _ => reply) .none
+    some { out := mOutOf r.out, gen := showGenReq r.genReq, ctl := ctl', l := r.l }
+  | some (.crash, ctl') => some { out := "x", gen := "-", ctl := ctl', l := {} }
+  | _ => none
+
+def candidates (st : LS) : List LEvent :=
+  (if st.startReq then [LEvent.start []] else []) ++ (if st.ctl.pending then [LEvent.activate] else []) ++
+  (match st.queue with | e :: _ => [LEvent.actor e] | [] => []) ++
+  [.observeTimer, .joinTimer, .heartbeat, .startDone] ++ (if st.stopReq then [LEvent.stop, .stopDone] else [])
+
+def applyEv (st : LS) (ev : LEvent) (t : Tried) : LS :=
+  let st := { st with prevL := st.l, l := t.l, ctl := t.ctl }
+  match ev with
+  | .start _ => { st with startReq := false }
+  | .actor _ => { st with queue := st.queue.drop 1 }
+  | .stopDone => { st with stopReq := false }
+  | _ => st
+
+def addNew (acc : List LS) (xs : List LS) : List LS := xs.foldl (fun a x => if a.contains x then a else a ++ [x]) acc
+
+/-- close a set of model states under the loop events that need no CAS (they leave no trace) -/
+def silentClosure : Nat → LN → Option Desc → Int → List LS → List LS
+  | 0, _, _, _, sts => sts
+  | fuel + 1, nd, store, now, sts =>
+    let more := sts.flatMap fun st => (candidates st).filterMap fun ev =>
+      match tryEvent nd st store ev now [] with
+      | some t => if t.out == "x" then some (applyEv st ev t) else none
+      | none => none
+    let sts' := addNew sts more
+    if sts'.length == sts.length then sts else silentClosure fuel nd store now sts'
+
+/-- the model states after a recorded CAS answering `out`: some enabled loop event's handler must answer exactly that -/
+def explainAll (nd : LN) (store : Option Desc) (now : Int) (reply : List Nat) (out gen : String) : List LS :=
+  let from_ := silentClosure 12 nd store now nd.states
+  let next := from_.flatMap fun st => (candidates st).filterMap fun ev =>
+    match tryEvent nd st store ev now reply with
+    | some t => if t.out == out && t.gen == gen then some (applyEv st ev t) else none
+    | none => none
+  addNew [] next
+
+def showFinal (c : Cfg) (l : Local) : String :=
+  match c.kind with
+  | .LC => l.state.code ++ "/" ++ showNatList l.tokens
+  | .BLC => match l.cur with | none => "-/-" | some i => i.state.code ++ "/" ++ showNatList i.tokens
+
+structure LA where
+  nodes : Array LN
+  store : Option Desc
+  diff : Option String := none
+  bad : List String := []
+  ncas : Nat := 0
+  lastNow : Int := 0
+  maxStates : Nat := 1
+
+def laDiff (s : LA) (m : String) : LA := if s.diff.isSome then s else { s with diff := some m }
+def laBad (s : LA) (b : String) : LA := if s.bad.contains b then s else { s with bad := b :: s.bad }
+
+/-- the property's statements on one recorded write of the real service (no model involved) -/
+def judgeLoopWrite (nd : LN) (now : Int) (din dout : Desc) : List String := Id.run do
+  let c := nd.cfg
+  let mut bad : List String := []
+  for id in (idsOf din ++ idsOf dout).eraseDups do
+    if id != c.id then
+      let a := din.get? id
+      let b := dout.get? id
+      let claimOk := nd.claims.contains id && (match a, b with | some x, some y => y == { x with tokens := [] } | _, _ => false)
+      let forgetOk := c.kind == .BLC && (match c.forget, a, b with | some p, some x, none => decide (now - x.ts ≥ p) | _, _, _ => false)
+      if !(a == b || claimOk || forgetOk) then bad := "frame" :: bad
+  match din.get? c.id, dout.get? c.id with
+  | some a, some b =>
+    if a.state != b.state then
+      let ok := legalEdge a.state b.state || (a.state == .LEAVING && b.state == .ACTIVE && nd.fresh) ||
+        (c.kind == .BLC && (nd.reqStates.contains b.state.code || (nd.stopping && b.state == .LEAVING)))
+      if !ok then
+        bad := (if c.kind == .BLC && nd.fresh then s!"edge-register:{a.state.code}>{b.state.code}" else s!"edge:{a.state.code}>{b.state.code}") :: bad
+    if b.ts < a.ts then bad := "heartbeat-backwards" :: bad
+    if a.regTs != b.regTs then bad := "registered-changed" :: bad
+  | _, _ => pure ()
+  return bad
+
+def setStates (s : LA) (i : Nat) (nd : LN) (sts : List LS) : LA :=
+  { s with nodes := s.nodes.setIfInBounds i { nd with states := sts }, maxStates := max s.maxStates sts.length }
+
+def loopItem (s : LA) (k : Nat) (item : String) : LA :=
+  match item.splitOn "!" with
+  | "M" :: idx :: rest =>
+    match idx.toNat? with
+    | none => laDiff s s!"item{k}:bad-marker"
+    | some i =>
+      match s.nodes[i]? with
+      | none => laDiff s s!"item{k}:bad-node"
+      | some nd =>
+        let upd (nd : LN) (f : LS → LS) : LA :=
+          let sts := silentClosure 12 nd s.store s.lastNow (addNew [] (nd.states.map f))
+          setStates s i nd sts
+        match rest with
+        | ["start"] => upd { nd with fresh := true, stopping := false, reqStates := [], claims := [] } (fun st => { st with startReq := true })
+        | ["req", "cs", st] =>
+          match State.ofCode st with
+          | some x => upd { nd with reqStates := st :: nd.reqStates } (fun q => { q with queue := q.queue ++ [.changeState x] })
+          | none => laDiff s s!"item{k}:bad-state"
+        | ["req", "ro", b] => upd nd (fun q => { q with queue := q.queue ++ [.changeRO (b == "1")] })
+        | ["req", "claim", frm] => upd { nd with claims := frm :: nd.claims } (fun q => { q with queue := q.queue ++ [.claim frm] })
+        | ["stop"] => upd { nd with stopping := true, presentAtStop := ((s.store.getD []).get? nd.cfg.id).isSome } (fun q => { q with stopReq := true })
+        | ["term", fin] =>
+          -- judge: "removal possible on shutdown" only per configuration
+          let present := ((s.store.getD []).get? nd.cfg.id).isSome
+          let s := if nd.unreg && present then laBad s "stop-did-not-unregister"
+            else if !nd.unreg && nd.presentAtStop && !present then laBad s "stop-unregistered-against-config" else s
+          let sts := silentClosure 16 nd s.store s.lastNow nd.states
+          let done := sts.filter fun st => (st.ctl.phase == .terminated || st.ctl.phase == .failed) &&
+            (fin == showFinal nd.cfg st.l || fin == showFinal nd.cfg st.prevL)
+          if done.isEmpty then
+            laDiff s s!"item{k}:term no model state is terminated with final={fin} (have {sts.map fun st => (repr st.ctl.phase, showFinal nd.cfg st.l)})"
+          else setStates s i nd done
+        | _ => laDiff s s!"item{k}:bad-marker"
+  | ["C", idx, now, gen, cas] =>
+    match idx.toNat?, now.toInt?, cas.splitOn ">" with
+    | some i, some now, [inS, outS] =>
+      match s.nodes[i]?, resolveIn s.store inS with
+      | some nd, some din =>
+        let s := { s with ncas := s.ncas + 1, lastNow := now }
+        let s := if showStore din != showStore s.store then laDiff s s!"item{k}:chain" else s
+        let reply : List Nat := match gen.splitOn "^" with | [_, _, r] => (natList? r).getD [] | _ => []
+        let implGen : String := match gen.splitOn "^" with | [n, t, _] => n ++ "^" ++ t | _ => "-"
+        -- judge on the implementation's own write
+        let implOut : Option Desc := if outS.startsWith "W" then parseDesc (outS.drop 1).toString else none
+        let s := match implOut with
+          | some dout => (judgeLoopWrite nd now (din.getD []) dout).foldl laBad s
+          | none => s
+        -- acceptance
+        let next := explainAll nd s.store now reply outS implGen
+        let store' := match implOut with | some d => some d | none => s.store
+        let nd := { nd with fresh := false }
+        if next.isEmpty then
+          let s := laDiff s s!"item{k}:no-loop-event-explains phases={nd.states.map fun st => repr st.ctl.phase} out={(outS.take 80).toString}"
+          { s with store := store', nodes := s.nodes.setIfInBounds i nd }
+        else
+          let s := { s with store := store' }
+          setStates s i nd (silentClosure 12 nd store' now next)
+      | _, _ => laDiff s s!"item{k}:bad-cas"
+    | _, _, _ => laDiff s s!"item{k}:bad-cas-fields"
+  | _ => laDiff s s!"item{k}:bad-item"
+
+def handleLoop (f : List String) : String × String × String :=
+  match f with
+  | [_case, cfgs, unregs, init, trace] =>
+    match (cfgs.splitOn ";").mapM parseCfg, parseStore init with
+    | some cs, some st =>
+      let us := unregs.splitOn ";"
+      let nodes : Array LN := (cs.zip us).toArray.map fun (c, u) => { cfg := c, unreg := u == "1" }
+      let items := if trace == "" then [] else trace.splitOn " "
+      let (s, _) := items.foldl (fun (acc : LA × Nat) it => (loopItem acc.1 acc.2 it, acc.2 + 1)) ({ nodes := nodes, store := st }, 0)
+      let kinds := "".intercalate (cs.map fun c => if c.kind == .LC then "L" else "B")
+      (s.diff.getD "-", (if s.bad.isEmpty then "-" else ",".intercalate s.bad.reverse),
+        s!"loop=1 kinds={kinds} cas={bucket s.ncas} branching={if s.maxStates ≤ 1 then "1" else if s.maxStates ≤ 4 then "2-4" else "5+"}")
+    | _, _ => ("bad-input", "-", "loop=1")
+  | _ => ("bad-fields", "-", "loop=1")
+
 def handle (cmd : String) (f : List String) : String × String × String :=
   if cmd == "C08.run" then handleRun f
+  else if cmd == "C08.loop" then handleLoop f
   else if cmd == "C08.glue" then handleGlue f
   else ("unknown-cmd", "-", "-")
 
